@@ -808,7 +808,7 @@ class Executor:
                     for k, f in mod.promoteds.items():
                         if k.startswith(f"promoted[{m.group(2)}] in ") and (k.endswith(m.group(1)) or fr.fn.name.endswith(k.split(" in ", 1)[1]) or k.split(" in ", 1)[1].endswith(m.group(1))):
                             return self.eval_const_item(st, f)
-            return FnRef(c)
+            return FnRef(self.subst_ty(c, fr) if fr is not None else c)
         raise Unsupported(f"const {c}")
 
     def str_const(self, st: State, s: str) -> V:
